@@ -18,7 +18,7 @@
    This file contains statements only; every proof is [exact <lemma of PwriteProofs.v / C14Proofs.v>]. *)
 From Coq Require Import String.
 From Coq Require Import List Arith NArith Bool.
-From FileIO Require Import Pwrite FdTable Raw TiffFail SideBySide Hal Spec PwriteProofs C14Proofs.
+From FileIO Require Import Pwrite FdTable Raw TiffFail SideBySide Hal Spec PwriteProofs C14Proofs ErrnoProofs.
 Import ListNotations.
 Local Open Scope nat_scope.
 Local Open Scope list_scope.
@@ -63,6 +63,14 @@ Theorem Pwrite_true :
     exists pat, delivers ws k (length buf) pat /\ list_sum pat = length buf /\ zeros pat < 3 /\ k' = k + length pat.
 Proof. exact file_write1_true. Qed.
 Print Assumptions Pwrite_true.
+
+(* the error NUMBER of a failing pwrite (EIO, ENOSPC, EAGAIN, EINTR, EBADF) does not matter: two scripts that fail the
+   same calls with different numbers leave the same file, consume the same calls and give the same return value *)
+Theorem Pwrite_errno_irrelevant :
+  forall ws ws', errno_variant ws ws' ->
+    forall s off buf, file_write1 ws s off buf = file_write1 ws' s off buf.
+Proof. exact file_write1_errno. Qed.
+Print Assumptions Pwrite_errno_irrelevant.
 
 (* ---------------------------------------------------------------------------------------------------------------
    C14_exact.  [cycles] is ANY list of acquisitions (uri, packets) run through the HAL on one raw device as
@@ -138,8 +146,14 @@ Proof. vm_compute. repeat split; auto. Qed.
 
 Example Pwrite_fail_example :     (* three zero-length results *)
   file_write1 (fun _ => WCount 0) (0, []) 0 (bytes_of [1]) = ((3, []), false) /\
-  file_write1 (fun k => if k =? 1 then WErr else WCount 1) (0, []) 0 (bytes_of [1; 2]) = ((2, bytes_of [1]), false).
+  file_write1 (fun k => if k =? 1 then WErr EIO else WCount 1) (0, []) 0 (bytes_of [1; 2]) = ((2, bytes_of [1]), false).
 Proof. vm_compute. auto. Qed.
+
+(* the hypothesis of Pwrite_errno_irrelevant met by two different scripts: the second call fails with EIO / with EAGAIN *)
+Example errno_variant_example :
+  errno_variant (fun k => if k =? 1 then WErr EIO else WCount 1) (fun k => if k =? 1 then WErr EAGAIN else WCount 1) /\
+  file_write1 (fun k => if k =? 1 then WErr EAGAIN else WCount 1) (0, []) 0 (bytes_of [1; 2]) = ((2, bytes_of [1]), false).
+Proof. split; [intros k; destruct (k =? 1); simpl; auto|vm_compute; auto]. Qed.
 
 (* the write script of the examples is admissible for the four packets of cyc_a, cyc_b: patterns [1;0;2], [], [2], [0;0;2] *)
 Example admissible_example :
